@@ -202,9 +202,12 @@ pub fn task_uuid(i: usize) -> Uuid {
     Uuid::from_u128(0xa0 + i as u128)
 }
 
-/// Timestamps used in generated operations: base + n seconds (+ nanos).
-pub fn ts(secs: i64) -> DateTime<Utc> {
-    Utc.timestamp_opt(1_700_000_000 + secs, 0).unwrap()
+/// Timestamps used in generated operations: base + n * 400 ms, so that generated pools contain
+/// instants less than a second apart as well as instants in different seconds.
+pub fn ts(k: i64) -> DateTime<Utc> {
+    let ms = 1_700_000_000_000i64 + k * 400;
+    Utc.timestamp_opt(ms.div_euclid(1000), (ms.rem_euclid(1000) * 1_000_000) as u32)
+        .unwrap()
 }
 
 pub fn ts_ns(secs: i64, nanos: u32) -> DateTime<Utc> {
